@@ -10,6 +10,12 @@ Lemma names_src_ok :
   names_candidate_format = [37; 115; dot; 37; 100] (* "%s.%d" *).
 Proof. repeat split; reflexivity. Qed.
 
+(* getNewName builds a candidate with ONE Sprintf whose format is a literal of the source and whose
+   arguments are (name, i), and tests existence with os.Stat(filepath.Join(path, candidate)) /
+   os.IsNotExist: the peer's name never is (part of) a format, [candidate] below is what it computes *)
+Lemma names_getnewname_src_ok : names_getnewname_shape_ok = true.
+Proof. reflexivity. Qed.
+
 Lemma code_checks_on : chk_unmarshal code_checks = true /\ chk_create_file code_checks = true.
 Proof. destruct names_src_ok as (_ & _ & H1 & H2 & _). split; assumption. Qed.
 
@@ -856,4 +862,20 @@ Proof.
   assert (H : forallb (fun i => list_eqb (decimal (N.of_nat i)) (uint_bytes (N.to_uint (N.of_nat i))))
                 (seq 0 (N.to_nat names_max_tries)) = true) by (vm_compute; reflexivity).
   rewrite forallb_forall in H. intros i Hi. apply list_eqb_eq. apply H. apply in_seq. lia.
+Qed.
+
+(* ---------- the fresh name is a function of the validated name and the counter only ---------- *)
+(* whatever bytes the name consists of ('%' and fmt verbs included): the name itself or
+   name "." decimal(i) with i below the number of tries, and again a single clean path element *)
+Theorem fresh_name_form f d nm ln : valid_name nm = true -> get_new_name f d nm = Some ln ->
+  good ln /\ (ln = nm \/ exists i, (i < N.to_nat names_max_tries)%nat /\ ln = nm ++ [dot] ++ decimal (N.of_nat i) /\
+                                  Forall digit (decimal (N.of_nat i))).
+Proof.
+  intros Hv H. pose proof (valid_name_good nm Hv) as Hg.
+  destruct (get_new_name_good f d nm ln Hg H) as [Hl _]. split; [exact Hl|].
+  apply fresh_shape in H as (_ & pre & post & E & _ & _).
+  assert (Hin : In ln (candidates nm)) by (rewrite E; apply in_or_app; right; left; reflexivity).
+  unfold candidates in Hin. destruct Hin as [<-|Hin]; [left; reflexivity|]. right.
+  unfold numbered in Hin. apply in_map_iff in Hin as (j & <- & Hj). apply in_seq in Hj.
+  exists j. split; [lia|]. rewrite N.add_0_l. split; [reflexivity | apply decimal_spec].
 Qed.
